@@ -37,7 +37,7 @@ def _nontrivial(labels, sim):
         mj.kind != 'apply' for mj in sim.jobs)
 
 
-execute_sim = make_execute({'c04'}, _nontrivial)
+execute_sim = make_execute({'c04'}, _nontrivial, prop='C04')
 PARTS = {'sim': execute_sim}
 EXPLORE = {'sim': (sim_cases(), execute_sim)}
 
